@@ -64,6 +64,14 @@ func newStore(v1 string, pages bool) *cfmem.API {
 	z2 := &cfmem.Zone{ID: "zone2", Name: "example.net", Records: []*cfmem.Record{
 		{ID: "rec3", Name: "example.net", Priority: 1, Target: ".", Value: `alpn="h2" ech="b2xk"`},
 	}}
+	if pages {
+		// the second zone has two pages too (25 records) and its target sits on the second page
+		var recs []*cfmem.Record
+		for i := 0; i < 24; i++ {
+			recs = append(recs, &cfmem.Record{ID: fmt.Sprintf("npad%d", i), Name: fmt.Sprintf("p%d.example.net", i), Priority: 1, Target: ".", Value: `alpn="h2"`})
+		}
+		z2.Records = append(recs, z2.Records[0])
+	}
 	return cfmem.New([]*cfmem.Zone{z1, z2})
 }
 
